@@ -334,9 +334,17 @@ var cacheDocs = []string{
 	// are kept skips it from the second compilation on)
 	"<mjml><mj-head><mj-font name=\"F\" href=\"https://f.example/f.css\" weight=\"700\"/><mj-style media=\"screen\">.a{color:red}</mj-style><mj-title lang=\"en\">T</mj-title></mj-head>" +
 		"<mj-body><mj-section><mj-column><mj-text font-family=\"F\">head-invalid</mj-text></mj-column></mj-section></mj-body></mjml>",
+	// two long documents (about 60 KiB) of equal length that differ in one character in the middle: a key computed from the
+	// length and the ends folds them together
+	longDoc("order 1001"), longDoc("order 1002"),
 }
 
-const cacheOkBits = "11011111111111"
+func longDoc(mid string) string {
+	para := "<mj-text>" + strings.Repeat("lorem ipsum dolor sit amet consectetur ", 24) + "</mj-text>"
+	return "<mjml><mj-body><mj-section><mj-column>" + strings.Repeat(para, 30) + "<mj-text>" + mid + "</mj-text>" + strings.Repeat(para, 30) + "</mj-column></mj-section></mj-body></mjml>"
+}
+
+const cacheOkBits = "1101111111111111"
 
 // headReadingDoc: index of the document whose head the renderer reads while rendering
 const headReadingDoc = 8
@@ -375,7 +383,7 @@ func (h cacheHist) all() []string { return append(append([]string{}, h.prefix...
 // compareCache runs one history on the model and on the implementation.
 func compareCache(drv *DriverPool, h cacheHist, res *Result, prop string, checkC14 bool) {
 	ops := h.all()
-	hs := "0,1,2,3,4,5,6,7,8,9,10,11,12,13"
+	hs := "0,1,2,3,4,5,6,7,8,9,10,11,12,13,14,15"
 	if h.hashes != nil {
 		var p []string
 		for _, x := range h.hashes {
@@ -625,7 +633,7 @@ func cacheHistories(tier string, seed int64, withConfigs bool) []cacheHist {
 			if fast {
 				o = r.Pick(append(falpha, "rc0", "rc1", "rc3"))
 			} else {
-				o = r.Pick(append(alpha, "rc0", "rc1", "rc0", "rc8", "rc8", "ru8", "rcd0", "rcd8", "rud0", "rcd1", "rc6", "rc7", "rc7", "ru6", "rc9", "rc10", "rc11", "rc12", "rc12", "rc13", "rc13"))
+				o = r.Pick(append(alpha, "rc0", "rc1", "rc0", "rc8", "rc8", "ru8", "rcd0", "rcd8", "rud0", "rcd1", "rc6", "rc7", "rc7", "ru6", "rc9", "rc10", "rc11", "rc12", "rc12", "rc13", "rc13", "rc14", "rc15"))
 			}
 			h.ops = append(h.ops, o)
 			if fast && o != "s" {
@@ -765,13 +773,14 @@ func runCacheProp(prop string) runFn {
 				{"rc6", "rc7", "rc6", "rc7"}, {"rc7", "rc6"}, {"rc6", "ru7", "rc7", "rc6"}, {"rc7", "s", "rc6", "rc7"},
 				{"rc9", "rc10", "rc9", "rc10"}, {"rc10", "rc9", "rc11", "rc10"}, {"rc11", "rc9", "ru10", "rc10", "rc11"}, {"rc9", "s", "rc10", "rc11", "rc9"},
 				{"rc12", "rc12", "ru12", "rc12"}, {"ru12", "rc12", "s", "rc12"}, {"rcd12", "rc12", "rcd12"},
-				{"rc13", "rc13", "rc13", "ru13"}, {"ru13", "rc13", "rc13", "s", "rc13"}, {"rcd13", "rc13", "rc13"}} {
+				{"rc13", "rc13", "rc13", "ru13"}, {"ru13", "rc13", "rc13", "s", "rc13"}, {"rcd13", "rc13", "rc13"},
+				{"rc14", "rc15", "rc14", "rc15"}, {"rc15", "rc14"}, {"ru14", "rc14", "rc15", "s", "rc15", "rc14"}} {
 				hs = append(hs, cacheHist{ops: ops})
 			}
 			// forced hash collisions: the recorded finding C13-F1, and near misses that must not collide
 			if prop == "C13" {
-				hs = append(hs, cacheHist{ops: []string{"rc0", "rc1"}, hashes: []uint64{7, 7, 8, 9, 10, 11, 12, 13, 14, 15, 16, 17, 18, 19, 20}})
-				hs = append(hs, cacheHist{ops: []string{"rc0", "rc1", "rc0"}, hashes: []uint64{7, 8, 9, 10, 11, 12, 13, 14, 15, 16, 17, 18, 19, 20}})
+				hs = append(hs, cacheHist{ops: []string{"rc0", "rc1"}, hashes: []uint64{7, 7, 8, 9, 10, 11, 12, 13, 14, 15, 16, 17, 18, 19, 20, 21, 22}})
+				hs = append(hs, cacheHist{ops: []string{"rc0", "rc1", "rc0"}, hashes: []uint64{7, 8, 9, 10, 11, 12, 13, 14, 15, 16, 17, 18, 19, 20, 21, 22}})
 			}
 		}
 		res.Exhaustive = false
